@@ -557,7 +557,30 @@ pub fn check(entry: &Entry, bytes: &[u8], alloc_fail_nth: usize) -> Result<CaseS
 // Generation: values, encodings with marks, channel faults
 // ------------------------------------------------------------------------------------------------------------------
 
+/// Lengths just around the places where something changes: the width of the size prefix (64, 16384), buffer and
+/// message limits an implementation may have (256, 1 KiB, 2 KiB, 4 KiB, 64 KiB).
+fn threshold_len(rng: &mut Rng) -> usize {
+    let t = *rng.pick(&[63usize, 64, 127, 128, 255, 256, 512, 1000, 1024, 2045, 2048, 4096, 8192, 16383, 16384, 65535, 65536]);
+    (t + rng.usize_below(9)).saturating_sub(4)
+}
+
 fn random_string(rng: &mut Rng, max: usize) -> String {
+    // one string in fifty is long: its byte length lands near a threshold, and multi-byte characters straddle it
+    if rng.chance(1, 50) {
+        let target = threshold_len(rng);
+        let wide = rng.below(4); // 0: ASCII only .. 3: mostly multi-byte
+        let mut s = String::with_capacity(target + 4);
+        while s.len() < target {
+            let c = match (rng.below(4) < wide, rng.below(3)) {
+                (false, _) => (b'a' + rng.below(26) as u8) as char,
+                (true, 0) => char::from_u32(0x80 + rng.below(0x700) as u32).unwrap_or('é'),
+                (true, 1) => char::from_u32(0x4E00 + rng.below(0x100) as u32).unwrap_or('中'),
+                (true, _) => '\u{1F600}',
+            };
+            s.push(c);
+        }
+        return s;
+    }
     let n = rng.usize_below(max + 1);
     let mut s = String::new();
     for _ in 0..n {
@@ -613,7 +636,9 @@ pub fn random_val(rng: &mut Rng, ty: &Ty, depth: usize) -> Val {
         Ty::VarU62 | Ty::Size => Val::Int(interesting_int(rng, 0, (1 << 62) - 1)),
         Ty::Str => Val::Str(random_string(rng, 12)),
         Ty::Seq(inner) => {
-            let n = rng.usize_below(max_len + 1);
+            // now and then a long sequence of cheap elements (its size prefix is 2 or 4 bytes wide)
+            let cheap = matches!(**inner, Ty::Bool | Ty::U8 | Ty::I8 | Ty::U16 | Ty::I16 | Ty::U32 | Ty::I32 | Ty::VarI32 | Ty::VarU32 | Ty::F32);
+            let n = if cheap && depth <= 1 && rng.chance(1, 60) { threshold_len(rng).min(20_000) } else { rng.usize_below(max_len + 1) };
             Val::Seq((0..n).map(|_| random_val(rng, inner, depth + 1)).collect())
         }
         Ty::Dict(k, v) => {
